@@ -158,6 +158,27 @@ def run_names_case_mode(nc):
             "zip": lambda: vector.zip({n: ak.Array([value_of(n), value_of(n, 1)]) for n in S}),
             "Array": lambda: vector.Array([{n: value_of(n, k) for n in S} for k in (0, 1)]),
         }
+        if cls["ok"] == "T" and VALUE_MODE[0] == "distinct":
+            # dict keys in reverse order, columns of different dtypes (int64 / float64 / float32 in turn): each stored
+            # column must be the very column that was supplied under that name
+            calls += 1
+            base = {"op": "array:reversed-keys-mixed-dtypes", "names": sorted(S), "tag": "ctor"}
+            dts = [numpy.int64, numpy.float64, numpy.float32]
+            cols = {}
+            for i, n in enumerate(reversed(S)):
+                dt = dts[i % 3]
+                vals = [NAMES.index(n) + 2, NAMES.index(n) + 102] if dt is numpy.int64 else [value_of(n) + 0.1, value_of(n, 1) + 0.1]
+                cols[n] = numpy.array(vals, dtype=dt)
+            try:
+                v = vector.array(cols)
+                plain = numpy.asarray(v)
+                for n in S:
+                    g = gen(n)
+                    if plain[g].dtype != cols[n].dtype or not numpy.array_equal(plain[g], cols[n]):
+                        recs.append(dict(base, kind="column-not-stored-as-supplied", field=n, got=f"{plain[g].dtype} {plain[g].tolist()}",
+                                         want=f"{cols[n].dtype} {cols[n].tolist()}"))
+            except Exception as ex:
+                recs.append(dict(base, kind="exception", error=f"{type(ex).__name__}: {ex}"[:200]))
         for who, f in ctors.items():
             calls += 1
             base = {"op": who, "names": sorted(S), "tag": "ctor"}
